@@ -322,7 +322,8 @@ def build_ml(name, srcs, packages=()):
 
             def inc(m):
                 return open(os.path.join(ROOT, "ocaml", m.group(1))).read()
-            txt = re.sub(r"\(\*INCLUDE ([A-Za-z0-9_.]+)\*\)", inc, txt)
+            for _ in range(4):
+                txt = re.sub(r"\(\*INCLUDE ([A-Za-z0-9_.]+)\*\)", inc, txt)
             with open(q, "w") as f:
                 f.write(txt)
             mli = p[:-3] + ".mli"
@@ -385,7 +386,7 @@ def run_impl(binary, casefile, outfile, n_cases, timeout=1200, extra_args=(), ch
                 pass
             fails.append((last, kind, err[-3000:]))
             fo.write("%d MONITOR %s\n" % (last, kind))
-            if kind == "leak" and rc in (97, 99) and ("DONE" in out):
+            if kind == "leak" and rc in (97, 99) and re.search(r"^DONE$", out, re.M):
                 # leak reported at exit after all cases ran: attribute to whole run
                 break
             start = last + 1
